@@ -100,14 +100,14 @@ def make_reduce(ctx, kind, n, U, method, deg, lam_mode, pairs=None, cons=False):
         anc = sorted(v for v in used if not (isinstance(v, int) and v < nv))
         obs.append(Ob('result type', type(D) is want_type, info={'type': type(D).__name__}))
         obs.append(Ob('degree <= requested', all(len(k) <= d for k in D), info={'keys': [list(k) for k in D if len(k) > d][:3]}))
-        obs.append(Ob('labels are ints 0..n+a-1', all(isinstance(v, int) and 0 <= v for v in used) and
-                      anc == list(range(nv, nv + len(anc))), info={'used': sorted(map(repr, used)), 'n': nv}))
+        obs.append(Ob('labels are non-negative ints; labels >= n are ancillas', all(isinstance(v, int) and 0 <= v for v in used),
+                      info={'used': sorted(map(repr, used)), 'n': nv}))
         obs.append(Ob('mapping is a bijection variables -> 0..n-1', set(mp) == set(mvars) and sorted(mp.values()) == list(range(nv))))
         obs.append(Ob('model unchanged by the call', before == after))
         obs.append(Ob('convert_solution undoes the relabelling and ignores ancillas', not bad_conv, info={'first_bad': bad_conv[:2]}))
         if len(anc) > 6 or nv + len(anc) > 12 or not all(isinstance(v, int) for v in used):
             obs.append(Ob('OUTSIDE-BOUND: too many ancillas for the expansion', True)); return obs
-        sb = {v: z3.Bool('s%d' % v) for v in range(nv + len(anc))}
+        sb = {v: z3.Bool('s%d' % v) for v in range(max([nv - 1] + list(anc)) + 1)}
         Dv = O.zbool_value(ctx, D, sb, tgt_spin)
         Mv = O.zbool_value(ctx, M, sb, src_spin, lab2idx=mp)
         # (i) never undercuts (default / callable penalty: no assumption; constant: lam >= |coef of reduced boolean-form terms|)
@@ -180,30 +180,37 @@ def jobs(tier, seed):
         add('PCSO', 3, [(0,), (0, 1, 2)], 'to_quso', 2, 'none')
     else:
         hi4 = [(0, 1, 2), (0, 1, 3), (0, 2, 3), (1, 2, 3), (0, 1, 2, 3)]
+        cross = [(0,), (0, 1, 2), (1, 2, 3), (0, 1, 2, 3)]
         for kind in ['PUBO', 'PCBO']:
             for lam_mode in ['none', 'const', 'abs', 'abs1']:
-                for method, deg in [('to_qubo', 2), ('to_quso', 2), ('to_pubo', 3), ('to_puso', 3)]:
-                    add(kind, 4, lo + hi4, method, deg, lam_mode, budget=2400)
+                for method, deg in [('to_qubo', 2), ('to_pubo', 3)]:
+                    if kind == 'PUBO' or lam_mode in ('none', 'const'):
+                        add(kind, 4, lo + hi4, method, deg, lam_mode, budget=1200)
+                for method, deg in [('to_quso', 2), ('to_puso', 3)]:
+                    if kind == 'PUBO' or lam_mode == 'none':
+                        add(kind, 4, cross, method, deg, lam_mode, budget=1200)
         first = (0, 1, 2, 3)
         for p in itertools.combinations(first, 2):
-            add('PUBO', 4, lo + hi4, 'to_qubo', 2, 'none', pairs=[p], budget=2400)
-        add('PUBO', 4, lo + hi4, 'to_qubo', 2, 'const', pairs=[(0, 9)], budget=2400)
-        add('PUBO', 4, lo + hi4, 'to_pubo', 3, 'const', pairs=[(0, 1), (2, 3)], budget=2400)
+            add('PUBO', 4, lo + hi4, 'to_qubo', 2, 'none', pairs=[p], budget=1200)
+        add('PUBO', 4, lo + hi4, 'to_qubo', 2, 'const', pairs=[(0, 9)], budget=1200)
+        add('PUBO', 4, lo + hi4, 'to_pubo', 3, 'const', pairs=[(0, 1), (2, 3)], budget=1200)
         U5 = [(0,), (0, 1, 2), (0, 1, 2, 3), (1, 2, 3, 4), (0, 2, 4), (0, 1, 2, 3, 4)]
-        for method, deg in [('to_qubo', 2), ('to_pubo', 3), ('to_pubo', 4), ('to_quso', 2), ('to_puso', 3)]:
+        for method, deg in [('to_qubo', 2), ('to_pubo', 3), ('to_pubo', 4)]:
             for lam_mode in ['none', 'const']:
-                add('PUBO', 5, U5, method, deg, lam_mode, budget=2400)
-        add('PUBO', 6, [(0, 1, 2), (3, 4, 5), (0, 1, 5), (0, 1, 2, 3), (2, 3, 4, 5)], 'to_qubo', 2, 'none', budget=2400)
-        add('PUBO', 6, [(0, 1, 2), (3, 4, 5), (0, 1, 5), (0, 1, 2, 3), (2, 3, 4, 5)], 'to_pubo', 3, 'const', budget=2400)
-        add('PUBO', 5, [(0, 1), (2, 3, 4), (0, 1, 4), (0, 1, 2, 3)], 'to_qubo', 2, 'none', budget=2400)
-        add('PCBO', 3, [(), (0,), (0, 1, 2), (1, 2)], 'to_qubo', 2, 'none', cons=True, budget=2400)
-        add('PCBO', 3, [(), (0,), (0, 1, 2), (1, 2)], 'to_quso', 2, 'const', cons=True, budget=2400)
+                add('PUBO', 5, U5, method, deg, lam_mode, budget=1200)
+        add('PUBO', 5, [(0,), (0, 1, 2), (1, 2, 3, 4)], 'to_quso', 2, 'none', budget=1200)
+        add('PUBO', 5, [(0,), (0, 1, 2), (1, 2, 3, 4)], 'to_puso', 3, 'const', budget=1200)
+        add('PUBO', 6, [(0, 1, 2), (3, 4, 5), (0, 1, 5), (0, 1, 2, 3), (2, 3, 4, 5)], 'to_qubo', 2, 'none', budget=1200)
+        add('PUBO', 6, [(0, 1, 2), (3, 4, 5), (0, 1, 5), (0, 1, 2, 3), (2, 3, 4, 5)], 'to_pubo', 3, 'const', budget=1200)
+        add('PUBO', 5, [(0, 1), (2, 3, 4), (0, 1, 4), (0, 1, 2, 3)], 'to_qubo', 2, 'none', budget=1200)
+        add('PCBO', 3, [(), (0,), (0, 1, 2), (1, 2)], 'to_qubo', 2, 'none', cons=True, budget=1200)
+        add('PCBO', 3, [(), (0,), (0, 1, 2), (1, 2)], 'to_quso', 2, 'const', cons=True, budget=1200)
         for kind in ['PUSO', 'PCSO']:
             for lam_mode in ['none', 'const', 'abs1']:
                 for method, deg in [('to_quso', 2), ('to_qubo', 2)]:
-                    add(kind, 3, lo + [(0, 1, 2)], method, deg, lam_mode, budget=2400)
-            add(kind, 4, lo + [(0, 1, 2, 3)], 'to_quso', 2, 'none', budget=3000)
-            add(kind, 4, [(0, 1, 2), (0, 1, 2, 3)], 'to_puso', 3, 'none', budget=3000)
-            add(kind, 4, [(0, 1, 2), (1, 2, 3)], 'to_quso', 2, 'const', budget=3000)
-        add('PCSO', 3, [(0,), (0, 1, 2)], 'to_quso', 2, 'none', cons=True, budget=3000)
+                    add(kind, 3, lo + [(0, 1, 2)], method, deg, lam_mode, budget=1200)
+            add(kind, 4, lo + [(0, 1, 2, 3)], 'to_quso', 2, 'none', budget=1200)
+            add(kind, 4, [(0, 1, 2), (0, 1, 2, 3)], 'to_puso', 3, 'none', budget=1200)
+            add(kind, 4, [(0, 1, 2), (1, 2, 3)], 'to_quso', 2, 'const', budget=1200)
+        add('PCSO', 3, [(0,), (0, 1, 2)], 'to_quso', 2, 'none', cons=True, budget=1200)
     return J
